@@ -37,43 +37,43 @@ func init() {
 // c17Guards is the confirmed guarded-by table: field -> mutex field of the same struct. Fields not
 // listed are decided by inference (any owner mutex held at one access must be held at all).
 var c17Guards = map[string]string{
-	"services/accountmanager/dirk.Service.accounts":                          "mutex",
-	"services/accountmanager/dirk.Service.pubKeys":                           "mutex",
-	"services/accountmanager/dirk.Service.wallets":                           "walletsMutex",
-	"services/accountmanager/wallet.Service.accounts":                        "mutex",
-	"services/attester/standard.Service.attested":                            "attestedMu",
-	"services/blockrelay/standard.Service.builderBidsCache":                  "builderBidsCacheMu",
-	"services/blockrelay/standard.Service.controlledValidators":              "controlledValidatorsMu",
-	"services/blockrelay/standard.Service.executionConfig":                   "executionConfigMu",
-	"services/blockrelay/standard.Service.latestValidatorRegistrations":      "latestValidatorRegistrationsMu",
-	"services/blockrelay/standard.Service.signedValidatorRegistrations":      "signedValidatorRegistrationsMu",
-	"services/cache/standard.Service.blockRootToSlot":                        "blockRootToSlotMu",
-	"services/cache/standard.Service.executionChainHeadHeight":               "executionChainHeadMu",
-	"services/cache/standard.Service.executionChainHeadRoot":                 "executionChainHeadMu",
-	"services/controller/standard.Service.pendingAttestations":               "pendingAttestationsMutex",
-	"services/controller/standard.Service.subscriptionInfos":                 "subscriptionInfosMutex",
-	"services/controller/standard.epochTickerData.latestEpochRan":            "mutex",
-	"services/scheduler/advanced.Service.jobs":                               "jobsMutex",
-	"services/synccommitteeaggregator/standard.Service.beaconBlockRoots":     "beaconBlockRootsMu",
-	"services/synccommitteemessenger/standard.Service.slotDataRecords":       "slotDataRecordsMu",
-	"services/validatorsmanager/standard.Service.validatorPubKeyToIndex":     "validatorsMutex",
-	"services/validatorsmanager/standard.Service.validatorsByIndex":          "validatorsMutex",
-	"services/validatorsmanager/standard.Service.validatorsByPubKey":         "validatorsMutex",
-	"strategies/beaconblockproposal/best.Service.priorBlocksVotes":           "priorBlocksVotesMu",
-	"strategies/builderbid/best.Service.relayPubkeys":                        "relayPubkeysMu",
-	"strategies/builderbid/deadline.Service.relayPubkeys":                    "relayPubkeysMu",
+	"services/accountmanager/dirk.Service.accounts":                      "mutex",
+	"services/accountmanager/dirk.Service.pubKeys":                       "mutex",
+	"services/accountmanager/dirk.Service.wallets":                       "walletsMutex",
+	"services/accountmanager/wallet.Service.accounts":                    "mutex",
+	"services/attester/standard.Service.attested":                        "attestedMu",
+	"services/blockrelay/standard.Service.builderBidsCache":              "builderBidsCacheMu",
+	"services/blockrelay/standard.Service.controlledValidators":          "controlledValidatorsMu",
+	"services/blockrelay/standard.Service.executionConfig":               "executionConfigMu",
+	"services/blockrelay/standard.Service.latestValidatorRegistrations":  "latestValidatorRegistrationsMu",
+	"services/blockrelay/standard.Service.signedValidatorRegistrations":  "signedValidatorRegistrationsMu",
+	"services/cache/standard.Service.blockRootToSlot":                    "blockRootToSlotMu",
+	"services/cache/standard.Service.executionChainHeadHeight":           "executionChainHeadMu",
+	"services/cache/standard.Service.executionChainHeadRoot":             "executionChainHeadMu",
+	"services/controller/standard.Service.pendingAttestations":           "pendingAttestationsMutex",
+	"services/controller/standard.Service.subscriptionInfos":             "subscriptionInfosMutex",
+	"services/controller/standard.epochTickerData.latestEpochRan":        "mutex",
+	"services/scheduler/advanced.Service.jobs":                           "jobsMutex",
+	"services/synccommitteeaggregator/standard.Service.beaconBlockRoots": "beaconBlockRootsMu",
+	"services/synccommitteemessenger/standard.Service.slotDataRecords":   "slotDataRecordsMu",
+	"services/validatorsmanager/standard.Service.validatorPubKeyToIndex": "validatorsMutex",
+	"services/validatorsmanager/standard.Service.validatorsByIndex":      "validatorsMutex",
+	"services/validatorsmanager/standard.Service.validatorsByPubKey":     "validatorsMutex",
+	"strategies/beaconblockproposal/best.Service.priorBlocksVotes":       "priorBlocksVotesMu",
+	"strategies/builderbid/best.Service.relayPubkeys":                    "relayPubkeysMu",
+	"strategies/builderbid/deadline.Service.relayPubkeys":                "relayPubkeysMu",
 }
 
 // c17SingleRoot documents the fields that are written after construction without any lock, with
 // the one sequential root that owns them (confirmed by reading). The decision does not depend on
 // the table: any such field, listed or not, must be reachable from one sequential root only.
 var c17SingleRoot = map[string]string{
-	"services/controller/standard.Service.activeValidators":           "periodic account refresh job (run-time function and job function run on the job's goroutine)",
-	"services/controller/standard.Service.currentDutyDependentRoot":   "head event handler",
-	"services/controller/standard.Service.previousDutyDependentRoot":  "head event handler",
-	"services/controller/standard.Service.lastBlockEpoch":             "head event handler",
-	"services/controller/standard.Service.lastBlockRoot":              "head event handler",
-	"services/controller/standard.epochTickerData.atGenesis":          "periodic epoch ticker job",
+	"services/controller/standard.Service.activeValidators":          "periodic account refresh job (run-time function and job function run on the job's goroutine)",
+	"services/controller/standard.Service.currentDutyDependentRoot":  "head event handler",
+	"services/controller/standard.Service.previousDutyDependentRoot": "head event handler",
+	"services/controller/standard.Service.lastBlockEpoch":            "head event handler",
+	"services/controller/standard.Service.lastBlockRoot":             "head event handler",
+	"services/controller/standard.epochTickerData.atGenesis":         "periodic epoch ticker job",
 }
 
 type c17Field struct {
@@ -176,15 +176,19 @@ func runC17(p *core.Prog, r *core.Report, tier string) {
 	for _, id := range ids {
 		f := fields[id]
 		core.SortAccesses(f.acc)
+		// per nesting level: is the collection at that level ever mutated in place? A level that is only ever
+		// replaced wholesale (copy-on-write) may be read through a reference taken under the lock.
+		inplaceAt := map[int]bool{}
 		inplace := false
 		for _, a := range f.acc {
 			if a.Write && a.Inner {
+				inplaceAt[a.Depth] = true
 				inplace = true
 			}
 		}
 		var rel []core.FieldAccess
 		for _, a := range f.acc {
-			if a.Inner && !inplace {
+			if a.Inner && !inplaceAt[a.Depth] {
 				continue
 			}
 			rel = append(rel, a)
@@ -808,7 +812,29 @@ func c17FanOut(p *core.Prog, r *core.Report, la *core.LockAnalysis) {
 			var scan func(fn *ssa.Function, root ssa.Value, depth int, entryHeld bool)
 			scan = func(fn *ssa.Function, root ssa.Value, depth int, entryHeld bool) {
 				held := la.HeldAt(fn)
-				isHeld := func(in ssa.Instruction) bool { return entryHeld || len(held[in]) > 0 }
+				// a lock synchronises the instances only if all of them use the same one: a mutex field of a shared
+				// object, or a mutex handed to the fan-out body from outside (its parameter or captured variable).
+				// A mutex created inside the instance's own call tree is private to the instance.
+				sharedLock := func(l core.LockID) bool {
+					o := l.Field.Owner
+					for _, pre := range []string{"local:", "param:", "free:"} {
+						if strings.HasPrefix(o, pre) {
+							return pre != "local:" && strings.TrimPrefix(o, pre) == core.FnKey(b.fn)
+						}
+					}
+					return true
+				}
+				isHeld := func(in ssa.Instruction) bool {
+					if entryHeld {
+						return true
+					}
+					for l := range held[in] {
+						if sharedLock(l) {
+							return true
+						}
+					}
+					return false
+				}
 				core.EachInstr(fn, func(in ssa.Instruction) {
 					switch x := in.(type) {
 					case *ssa.MapUpdate:
@@ -847,6 +873,31 @@ func c17FanOut(p *core.Prog, r *core.Report, la *core.LockAnalysis) {
 								scan(callee, callee.Params[i], depth-1, isHeld(x))
 							}
 						}
+					case *ssa.Go:
+						// goroutines started further down still belong to this instance
+						if depth <= 0 {
+							return
+						}
+						var callee *ssa.Function
+						switch v := x.Call.Value.(type) {
+						case *ssa.MakeClosure:
+							callee, _ = v.Fn.(*ssa.Function)
+							for i, bv := range v.Bindings {
+								if callee != nil && i < len(callee.FreeVars) && derivesFrom(bv, root, map[ssa.Value]bool{}) {
+									scan(callee, callee.FreeVars[i], depth-1, false)
+								}
+							}
+						case *ssa.Function:
+							callee = v
+						}
+						if callee == nil || len(callee.Blocks) == 0 {
+							return
+						}
+						for i, a := range x.Call.Args {
+							if i < len(callee.Params) && pointerLike(a.Type()) && derivesFrom(a, root, map[ssa.Value]bool{}) {
+								scan(callee, callee.Params[i], depth-1, false)
+							}
+						}
 					}
 				})
 				// nested closures capturing the shared value
@@ -862,7 +913,7 @@ func c17FanOut(p *core.Prog, r *core.Report, la *core.LockAnalysis) {
 					})
 				}
 			}
-			scan(b.fn, sv, 2, false)
+			scan(b.fn, sv, 3, false)
 			anyWrite := false
 			for _, a := range accs {
 				if a.write {
